@@ -933,6 +933,31 @@ pub fn gen_c13(seed: u64, thorough: bool, only: Option<u64>, out: &mut Out) {
 /// C15 (and the loader part of C09): binary and JSON forms
 pub fn gen_c15(seed: u64, thorough: bool, _only: Option<u64>, out: &mut Out) {
   let mut r = Prng::for_case(seed, "C15", 0);
+  // genuine keys whose binary form ends in a byte that padding-, text- or terminator-minded code treats specially
+  // (0x00, 0xff, line feed, blank), found by search (about one key in 128 each), for one tag and for three
+  for (mds, last) in [(vec![0u8], 0x00u8), (vec![3, 7, 200], 0x00), (vec![5], 0xff), (vec![5], 0x0a), (vec![5], 0x20)] {
+    for _ in 0..4000 {
+      let s = Server::new(mds.clone()).expect("server");
+      let pk = s.get_public_key();
+      let b = pk.serialize_to_bincode().unwrap();
+      if *b.last().unwrap() != last {
+        continue;
+      }
+      let back = guarded(|| ServerPublicKey::load_from_bincode(&b).map_err(|e| err_name(&e)));
+      let obs = match &back {
+        Some(Ok(p)) => format!("ok {}", hex(&p.serialize_to_bincode().unwrap())),
+        Some(Err(e)) => format!("E:{}", e),
+        None => "panic".into(),
+      };
+      let v = match &back {
+        Some(Ok(p)) if *p == pk => Ok(()),
+        Some(Ok(_)) => Err("public key restored from its binary form differs from the original".to_string()),
+        _ => Err(format!("a genuine public key whose binary form ends in 0x{:02x} does not load back", last)),
+      };
+      out.case(format!("pk.load {}", hex(&b)), obs, v);
+      break;
+    }
+  }
   let sizes: Vec<usize> = if thorough { (0..=256).collect() } else { vec![0, 1, 2, 8, 255, 256] };
   for n in sizes {
     let mds: Vec<u8> = (0..n).map(|i| i as u8).collect();
